@@ -184,6 +184,10 @@ func knownUnits() []knownUnit {
 			Subject: sub("go", nil,
 				mkFile("a.thrift", "pa", []int{1}, svc("V0", &idlgen.NamedRef{File: 1, Name: "V1"}, fnVoid("m0", nil, nil))),
 				mkFile("b.thrift", "pb", none, svc("V1", nil, fnVoid("m0", []*idlgen.Field{fd(1, "a0", i32)}, nil))))},
+		{ID: "X11b", Expect: "fail", Note: "the plain case of X11: both files of one go namespace define `struct item_` — the known shared-go-namespace key whatever the spelling of the name",
+			Subject: sub("go", nil,
+				mkFile("a.thrift", "org.demo.p", []int{1}, strct("item_")),
+				mkFile("b.thrift", "org.demo.p", none, strct("item_")))},
 		{ID: "D19", Expect: "fail", Note: "functions a_b and aB of one service: duplicate method AB in the interface",
 			Subject: sub("go", nil, mkFile("a.thrift", "pa", none, svc("A", nil, fnVoid("a_b", nil, nil), fnVoid("aB", nil, nil))))},
 		{ID: "D20", Expect: "fail", Note: "fastgo -r: two files of one go namespace both declare ThriftGoUnusedProtection",
